@@ -280,6 +280,9 @@ func WorkerMain(p Prop, tier string, seed int64, shard, nshards int, only, resum
 		classes: map[uint64]struct{}{}, counters: map[string]int64{}, announce: announce,
 		violKeys: map[string]int{}}
 	p.Run(c)
+	for _, f := range atExit {
+		f()
+	}
 	hs := make([]uint64, 0, len(c.classes))
 	for h := range c.classes {
 		hs = append(hs, h)
@@ -296,3 +299,8 @@ func Register(p Prop) { registry[p.ID()] = p }
 
 // Lookup finds a registered driver.
 func Lookup(id string) Prop { return registry[id] }
+
+var atExit []func()
+
+// AtExit registers a function run by the worker after Prop.Run.
+func AtExit(f func()) { atExit = append(atExit, f) }
